@@ -19,10 +19,6 @@ namespace TsVerif.C02
 
 /-! ## What a parent's summary reads of a child -/
 
-def face (c : Tree) : Length × Length × Nat × Bool × Bool × Bool × Bool × Nat × Nat × Nat × Nat × Bool :=
-  (c.data.padding, c.data.size, c.data.symbol, c.data.extra, c.data.visible, (c.data.visible && c.data.named), c.data.isMissing,
-   c.data.errorCost, c.data.visibleChildCount, c.data.namedChildCount, c.data.visibleDescendantCount, decide (c.kids.length = 0))
-
 theorem face_kids (a b : Tree) (h : face a = face b) : a.kids.length = 0 ↔ b.kids.length = 0 := by
   simp only [face, Prod.mk.injEq] at h
   simpa using h.2.2.2.2.2.2.2.2.2.2.2
@@ -344,8 +340,27 @@ theorem allSymL_resummarizeLast (lang : Lang) (sym : Nat) : ∀ (l : List Tree),
     obtain ⟨d, k⟩ := c
     simp only [resummarizeLast, allSymL_cons, allSym_resummarize]
   | c :: c' :: rest => by
-    simp only [resummarizeLast, allSymL_cons]
-    rw [allSymL_resummarizeLast lang sym (c' :: rest)]
+    have ih := allSymL_resummarizeLast lang sym (c' :: rest)
+    show allSymL lang sym (c :: resummarizeLast lang (c' :: rest)) = allSymL lang sym (c :: c' :: rest)
+    rw [allSymL_cons, ih, ← allSymL_cons]
+
+theorem dmk (d : NodeData) (k : List Tree) : (Tree.mk d k).data = d := rfl
+theorem kmk (d : NodeData) (k : List Tree) : (Tree.mk d k).kids = k := rfl
+
+/-- Re-summarizing a node over children with the faces of children for which it was summarized
+gives the face it had. -/
+theorem face_resummarize_congr (lang : Lang) (d : NodeData) (k : Tree) (rest : List Tree) (k' : Tree) (rest' : List Tree)
+    (hn : NodeOK lang d (k :: rest)) (hmap : (k' :: rest').map face = (k :: rest).map face) :
+    face (resummarize lang (.mk d (k' :: rest'))) = face (.mk d (k :: rest)) := by
+  have hsix := summarize_six_congr lang d k' k rest' rest hmap
+  unfold NodeOK at hn
+  have hst := summarize_static lang length_zero d (k' :: rest')
+  have e : resummarize lang (.mk d (k' :: rest')) = .mk (summarize lang length_zero d (k' :: rest')) (k' :: rest') := rfl
+  rw [e]
+  simp only [face, dmk, kmk, hst.1, hst.2.1, hst.2.2.1, hst.2.2.2.1, hst.2.2.2.2.1,
+    hsix.1, hsix.2.1, hsix.2.2.1, hsix.2.2.2.1, hsix.2.2.2.2.1, hsix.2.2.2.2.2,
+    ← hn.1, ← hn.2.1, ← hn.2.2.1, ← hn.2.2.2.1, ← hn.2.2.2.2.1, ← hn.2.2.2.2.2, List.length_cons]
+  simp
 
 /-- Re-summarizing a summarized node does not change its face. -/
 theorem face_resummarize_summ (lang : Lang) (c : Tree) (h : Summarized lang c) : face (resummarize lang c) = face c := by
@@ -353,11 +368,7 @@ theorem face_resummarize_summ (lang : Lang) (c : Tree) (h : Summarized lang c) :
   cases kids with
   | nil => simp [resummarize]
   | cons k rest =>
-    have hn := ((summarized_mk lang d (k :: rest)).mp h).2.1 (by simp)
-    unfold NodeOK at hn
-    have hst := summarize_static lang length_zero d (k :: rest)
-    simp only [resummarize, face, Tree.data, Tree.kids, hst.1, hst.2.1, hst.2.2.1, hst.2.2.2.1, hst.2.2.2.2.1,
-      ← hn.1, ← hn.2.1, ← hn.2.2.1, ← hn.2.2.2.1, ← hn.2.2.2.2.1, ← hn.2.2.2.2.2]
+    exact face_resummarize_congr lang d k rest k rest (((summarized_mk lang d (k :: rest)).mp h).2.1 (by simp)) rfl
 
 theorem face_map_resummarizeLast (lang : Lang) : ∀ (l : List Tree), SummarizedL lang l → (resummarizeLast lang l).map face = l.map face
   | [], _ => rfl
@@ -365,9 +376,8 @@ theorem face_map_resummarizeLast (lang : Lang) : ∀ (l : List Tree), Summarized
     simp only [resummarizeLast, List.map_cons, List.map_nil]
     rw [face_resummarize_summ lang c ((summarizedL_cons lang c []).mp h).1]
   | c :: c' :: rest, h => by
-    simp only [resummarizeLast, List.map_cons]
     have := face_map_resummarizeLast lang (c' :: rest) ((summarizedL_cons lang c _).mp h).2
-    simp only [List.map_cons] at this
+    show face c :: (resummarizeLast lang (c' :: rest)).map face = face c :: (c' :: rest).map face
     rw [this]
 
 /-- `resummarize (.mk g.data (resummarizeLast g.kids))` — what the way back of `ts_subtree_compress`
@@ -375,24 +385,17 @@ does to the first child — keeps the face of a summarized node. -/
 theorem face_pop (lang : Lang) (g : Tree) (h : Summarized lang g) :
     face (resummarize lang (.mk g.data (resummarizeLast lang g.kids))) = face g := by
   obtain ⟨d, kids⟩ := g
-  simp only [Tree.data, Tree.kids]
+  rw [dmk, kmk]
   cases kids with
   | nil => simp [resummarizeLast, resummarize]
   | cons k rest =>
     have hk := ((summarized_mk lang d (k :: rest)).mp h)
-    have hn := hk.2.1 (by simp)
     have hmap := face_map_resummarizeLast lang (k :: rest) hk.2.2
     cases hr : resummarizeLast lang (k :: rest) with
     | nil => exact absurd hr (resummarizeLast_ne_nil lang _ (by simp))
     | cons k' rest' =>
       rw [hr] at hmap
-      have hsix := summarize_six_congr lang d k' k rest' rest hmap
-      unfold NodeOK at hn
-      have hst := summarize_static lang length_zero d (k' :: rest')
-      simp only [resummarize, face, Tree.data, Tree.kids, hst.1, hst.2.1, hst.2.2.1, hst.2.2.2.1, hst.2.2.2.2.1,
-        hsix.1, hsix.2.1, hsix.2.2.1, hsix.2.2.2.1, hsix.2.2.2.2.1, hsix.2.2.2.2.2,
-        ← hn.1, ← hn.2.1, ← hn.2.2.1, ← hn.2.2.2.1, ← hn.2.2.2.2.1, ← hn.2.2.2.2.2]
-      simp
+      exact face_resummarize_congr lang d k rest k' rest' (hk.2.1 (by simp)) hmap
 
 /-- **compressGo_face.**  Under `rotOK` (the nodes of the rotated symbol are hidden, non-extra, not
 MISSING and alias-free; the symbol is not an error symbol) `ts_subtree_compress` leaves the FACE of
@@ -484,24 +487,20 @@ theorem compressGo_face (lang : Lang) (sym : Nat) (he : isErrSym sym = false) : 
                   rw [leavesL_append]; simp [leavesL]
                 have hext := sized_same_leaves (.mk cd (.mk gd gkids :: cs)) _ (sized_of_summarized lang _ ((summarizedL_cons lang _ _).mp hT.2.2).1)
                   (sized_of_summarized lang _ hgrand) hlv
-                simp only [Tree.data] at hext
+                rw [dmk] at hext
                 have hfaceG' : face (resummarize lang (.mk gd (gkids.dropLast ++ [resummarize lang (.mk cd (gp :: cs))]))) =
                     face (.mk cd (.mk gd gkids :: cs)) := by
-                  have hk' : (resummarize lang (.mk gd (gkids.dropLast ++ [resummarize lang (.mk cd (gp :: cs))]))).kids.length ≠ 0 := by
-                    rw [resummarize_kids]; simp [Tree.kids]
-                  have hstat : ∀ x, (resummarize lang (.mk gd x)).data.symbol = gd.symbol ∧ (resummarize lang (.mk gd x)).data.extra = gd.extra ∧
-                      (resummarize lang (.mk gd x)).data.visible = gd.visible ∧ (resummarize lang (.mk gd x)).data.isMissing = gd.isMissing := by
-                    intro x
-                    cases x with
-                    | nil => simp [resummarize, Tree.data]
-                    | cons a b =>
-                      have := summarize_static lang length_zero gd (a :: b)
-                      simp only [resummarize, Tree.data]
-                      exact ⟨this.1, this.2.1, this.2.2.1, this.2.2.2.2.1⟩
-                  have hs4 := hstat (gkids.dropLast ++ [resummarize lang (.mk cd (gp :: cs))])
-                  simp only [face, Tree.data, Tree.kids, hext.1, hext.2, hs4.1, hs4.2.1, hs4.2.2.1, hs4.2.2.2, hrot.1, hrot.2.1, hrot.2.2.1, hrot.2.2.2,
-                    hgsym, hcsym, hgx, hcx, hgv, hcv, hgm, hcm, Bool.false_and, List.length_cons]
-                  simp [hk']
+                  cases hdl : gkids.dropLast ++ [resummarize lang (.mk cd (gp :: cs))] with
+                  | nil => simp at hdl
+                  | cons a b =>
+                    rw [hdl] at hext hrot
+                    have e : resummarize lang (.mk gd (a :: b)) = .mk (summarize lang length_zero gd (a :: b)) (a :: b) := rfl
+                    rw [e] at hext hrot ⊢
+                    rw [dmk] at hext hrot
+                    have hst := summarize_static lang length_zero gd (a :: b)
+                    simp only [face, dmk, kmk, hext.1, hext.2, hst.1, hst.2.1, hst.2.2.1, hst.2.2.2.2.1, hrot.1, hrot.2.1, hrot.2.2.1, hrot.2.2.2,
+                      hgsym, hcsym, hgx, hcx, hgv, hcv, hgm, hcm, Bool.false_and, List.length_cons]
+                    simp
                 -- the recursive call
                 have ih := compressGo_face lang sym he i _ hgrand haG' hG'sym
                 have ihs := compressGo_summarized lang sym i _ hgrand
@@ -524,18 +523,157 @@ theorem compressGo_face (lang : Lang) (sym : Nat) (he : isErrSym sym = false) : 
                 -- the tree itself
                 have hmap : (resummarize lang (.mk g2.data (resummarizeLast lang g2.kids)) :: ts).map face = (Tree.mk cd (.mk gd gkids :: cs) :: ts).map face := by
                   simp only [List.map_cons, hg3f]
-                have hsix := summarize_six_congr lang d _ _ ts ts hmap
                 have hn := hT.2.1 (by simp)
-                unfold NodeOK at hn
                 have hst := summarize_static lang length_zero d (resummarize lang (.mk g2.data (resummarizeLast lang g2.kids)) :: ts)
                 refine ⟨?_, ?_, ?_⟩
-                · simp only [resummarize, face, Tree.data, Tree.kids, hst.1, hst.2.1, hst.2.2.1, hst.2.2.2.1, hst.2.2.2.2.1,
-                    hsix.1, hsix.2.1, hsix.2.2.1, hsix.2.2.2.1, hsix.2.2.2.2.1, hsix.2.2.2.2.2,
-                    ← hn.1, ← hn.2.1, ← hn.2.2.1, ← hn.2.2.2.1, ← hn.2.2.2.2.1, ← hn.2.2.2.2.2]
-                  simp
+                · exact face_resummarize_congr lang d _ ts _ ts hn hmap
                 · rw [allSym_resummarize, allSym_mk, allSymL_cons]
                   simp only [Bool.and_eq_true, Bool.or_eq_true, bne_iff_ne, ne_eq, List.isEmpty_cons, Bool.false_eq_true, or_false]
                   exact ⟨hrd, hg3a, hats⟩
-                · simp only [resummarize, Tree.data, hst.1]; exact hs
+                · have e : ∀ x, resummarize lang (.mk d (x :: ts)) = .mk (summarize lang length_zero d (x :: ts)) (x :: ts) := fun _ => rfl
+                  rw [e, dmk, hst.1]; exact hs
+
+
+/-! ## The driver loop -/
+
+theorem compress_symbol (lang : Lang) (count : Nat) (t : Tree) (hs : Summarized lang t) (hr : rotOK lang t = true) :
+    face (compress lang count t) = face t ∧ rotOK lang (compress lang count t) = true ∧ Summarized lang (compress lang count t) := by
+  unfold rotOK at hr
+  simp only [Bool.and_eq_true, Bool.not_eq_true'] at hr
+  have := compressGo_face lang t.data.symbol hr.1 count t hs hr.2 rfl
+  unfold compress
+  refine ⟨this.1, ?_, compressGo_summarized lang _ count t hs⟩
+  unfold rotOK
+  rw [this.2.2]
+  simp [hr.1, this.2.1]
+
+theorem foldl_compress_face (lang : Lang) : ∀ (l : List Nat) (t : Tree), Summarized lang t → rotOK lang t = true →
+    face (l.foldl (fun acc i => compress lang i acc) t) = face t ∧ Summarized lang (l.foldl (fun acc i => compress lang i acc) t)
+  | [], _, hs, _ => ⟨rfl, hs⟩
+  | i :: l, t, hs, hr => by
+    simp only [List.foldl]
+    have h1 := compress_symbol lang i t hs hr
+    have h2 := foldl_compress_face lang l _ h1.2.2 h1.2.1
+    exact ⟨by rw [h2.1, h1.1], h2.2⟩
+
+theorem balanceNode_face (lang : Lang) (t : Tree) (hs : Summarized lang t) (hr : compressesAt t = true → rotOK lang t = true) :
+    face (balanceNode lang t) = face t ∧ Summarized lang (balanceNode lang t) := by
+  unfold balanceNode
+  unfold compressesAt at hr
+  by_cases h1 : t.data.repeatDepth > 0
+  · simp only [h1, if_true, decide_true, Bool.true_and] at hr ⊢
+    cases hh : t.kids.head? with
+    | none => exact ⟨by first | rfl | trivial, hs⟩
+    | some c1 =>
+      cases hl : t.kids.getLast? with
+      | none => exact ⟨by first | rfl | trivial, hs⟩
+      | some c2 =>
+        rw [hh, hl] at hr
+        simp only at hr ⊢
+        by_cases h2 : c1.data.repeatDepth > c2.data.repeatDepth
+        · simp only [h2, if_true]
+          exact foldl_compress_face lang _ t hs (hr (by simp [h2]))
+        · simp only [h2, if_false]
+          exact ⟨by first | rfl | trivial, hs⟩
+  · simp only [h1, if_false]
+    exact ⟨by first | rfl | trivial, hs⟩
+
+theorem balanceL_length (lang : Lang) (f : Nat) : ∀ (l : List Tree), (balanceL lang f l).length = l.length
+  | [] => by simp [balanceL]
+  | c :: rest => by simp [balanceL, balanceL_length lang f rest]
+
+mutual
+  /-- **balance_summarized.**  The whole driver loop `ts_parser__balance_subtree` keeps `Summarized` —
+  every cached summary of every node — and the face of the tree, under `balanceOK`: wherever the loop
+  calls `ts_subtree_compress`, the nodes of the rotated symbol are hidden, non-extra, not MISSING and
+  alias-free, and the symbol is not an error symbol. -/
+  theorem balance_summarized (lang : Lang) : ∀ (f : Nat) (t : Tree), Summarized lang t → balanceOK lang f t = true →
+      Summarized lang (balance lang f t) ∧ face (balance lang f t) = face t
+    | 0, t, hs, _ => by unfold balance; exact ⟨hs, rfl⟩
+    | f + 1, t, hs, hok => by
+      unfold balance
+      unfold balanceOK at hok
+      split
+      · exact ⟨hs, rfl⟩
+      · rename_i hc
+        simp only [hc, if_false, Bool.and_eq_true, Bool.or_eq_true, Bool.not_eq_true', Bool.false_eq_true] at hok
+        have hb := balanceNode_face lang t hs (by
+          intro hca
+          rcases hok.1 with h1 | h1
+          · rw [hca] at h1; cases h1
+          · exact h1)
+        cases hbn : balanceNode lang t with
+        | mk d kids =>
+          rw [hbn] at hb hok
+          simp only [Tree.kids] at hok
+          have hk := (summarized_mk lang d kids).mp hb.2
+          have hL := balanceL_summarized lang f kids hk.2.2 hok.2
+          simp only
+          refine ⟨?_, ?_⟩
+          · rw [summarized_mk]
+            refine ⟨?_, ?_, hL.1⟩
+            · intro h0
+              have : kids = [] := by
+                have := balanceL_length lang f kids
+                rw [h0] at this
+                exact List.eq_nil_of_length_eq_zero this.symm
+              exact hk.1 this
+            · intro hne
+              have hkne : kids ≠ [] := by intro h0; subst h0; simp [balanceL] at hne
+              exact nodeOK_congr lang d kids _ hL.2.symm (hk.2.1 hkne)
+          · rw [← hb.1]
+            have hlen := balanceL_length lang f kids
+            simp [face, dmk, kmk, hlen]
+  theorem balanceL_summarized (lang : Lang) : ∀ (f : Nat) (l : List Tree), SummarizedL lang l → balanceOKL lang f l = true →
+      SummarizedL lang (balanceL lang f l) ∧ (balanceL lang f l).map face = l.map face
+    | f, [], h, _ => by unfold balanceL; exact ⟨h, rfl⟩
+    | f, c :: rest, h, hok => by
+      unfold balanceOKL at hok
+      simp only [Bool.and_eq_true] at hok
+      have hc := (summarizedL_cons lang c rest).mp h
+      have h1 := balance_summarized lang f c hc.1 hok.1
+      have h2 := balanceL_summarized lang f rest hc.2 hok.2
+      simp only [balanceL, List.map_cons]
+      exact ⟨(summarizedL_cons lang _ _).mpr ⟨h1.1, h2.1⟩, by rw [h1.2, h2.2]⟩
+end
+
+
+/-! ## Non-vacuity -/
+
+def ref1 : Tree → Tree | .mk d k => .mk { d with refCount := 1 } k
+/-- A left-deep chain of the hidden symbol 3 of `demoLang` (what a repeat rule produces), depth 4. -/
+def chainA : Tree := newNode demoLang 3 [demoLeaf 0 1, demoLeaf 0 1] 0
+def chainB : Tree := newNode demoLang 3 [chainA, demoLeaf 0 1] 0
+def chainC : Tree := newNode demoLang 3 [chainB, demoLeaf 0 1] 0
+def chain3 : Tree := ref1 (newNode demoLang 3 [chainC, demoLeaf 0 1] 0)
+
+theorem chain3_summarized : Summarized demoLang chain3 := by
+  have hl : Summarized demoLang (demoLeaf 0 1) := by
+    rw [demoLeaf, newLeaf, summarized_mk]; exact ⟨fun _ => by unfold LeafOK; decide, fun h => absurd rfl h, summarizedL_nil _⟩
+  have step : ∀ (d : NodeData) (a b : Tree), NodeOK demoLang d [a, b] → Summarized demoLang a → Summarized demoLang b →
+      Summarized demoLang (.mk d [a, b]) := by
+    intro d a b hn ha hb
+    rw [summarized_mk]
+    exact ⟨fun h => by simp at h, fun _ => hn, (summarizedL_cons _ _ _).mpr ⟨ha, (summarizedL_cons _ _ _).mpr ⟨hb, summarizedL_nil _⟩⟩⟩
+  have hA : Summarized demoLang chainA := step _ _ _ (by unfold NodeOK; decide) hl hl
+  have hB : Summarized demoLang chainB := step _ _ _ (by unfold NodeOK; decide) hA hl
+  have hC : Summarized demoLang chainC := step _ _ _ (by unfold NodeOK; decide) hB hl
+  exact step _ _ _ (by unfold NodeOK; decide) hC hl
+
+theorem balanceOK_succ (lang : Lang) (f : Nat) (t : Tree) : balanceOK lang (f + 1) t =
+    (if t.kids.isEmpty || t.data.refCount != 1 then true else
+      (!compressesAt t || rotOK lang t) && balanceOKL lang f (balanceNode lang t).kids) := by rw [balanceOK]
+theorem balanceOKL_zero (lang : Lang) : ∀ (l : List Tree), balanceOKL lang 0 l = true
+  | [] => by rw [balanceOKL]
+  | c :: rest => by rw [balanceOKL, balanceOK, balanceOKL_zero lang rest]; rfl
+
+/-- The hypothesis holds for the chain (the loop DOES call `ts_subtree_compress` on it: repeat depth 3
+against 0), and the rotations change its shape: the first child becomes a node with two inner children. -/
+example : compressesAt chain3 = true ∧ rotOK demoLang chain3 = true := by decide
+example : balanceOK demoLang 1 chain3 = true := by rw [balanceOK_succ, balanceOKL_zero]; decide
+example : Summarized demoLang (balance demoLang 1 chain3) :=
+  (balance_summarized demoLang 1 chain3 chain3_summarized (by rw [balanceOK_succ, balanceOKL_zero]; decide)).1
+example : chain3.kids.head?.map (fun c => c.kids.map (·.kids.length)) = some [2, 0] ∧
+    (compress demoLang 1 chain3).kids.head?.map (fun c => c.kids.map (·.kids.length)) = some [2, 2] := by decide
 
 end TsVerif.C02
